@@ -283,6 +283,14 @@ pub fn run(ctx: &Ctx) -> (Stats, Report) {
         (Kind::DT, "DD HH24:MI:SS.FF", "-100000000 00:00:00.000000"),
         (Kind::DT, "DD HH24:MI:SS.FF", "100000000 00:00:00.000001"),
         (Kind::DT, "DD HH24:MI:SS.FF", "99999999 23:59:59.9999995"),
+        (Kind::DT, "DD HH24:MI:SS.FF", "100000000 00:00:00.9999995"),
+        (Kind::DT, "DD HH24:MI:SS.FF", "-100000000 00:00:00.9999995"),
+        (Kind::DT, "DD HH24:MI:SS.FF8", "100000000 00:00:00.99999995"),
+        (Kind::DT, "DD HH24:MI:SS.FF9", "-100000000 00:00:00.999999995"),
+        (Kind::DT, "DD HH24:MI:SS.FF", "100000000 00:00:00.0000004"),
+        (Kind::Ts, "YYYY-MM-DD HH24:MI:SS.FF9", "9999-12-31 23:59:59.999999500"),
+        (Kind::Ts, "YYYY-MM-DD HH24:MI:SS.FF7", "9999-12-31 23:59:59.9999994"),
+        (Kind::Time, "HH24:MI:SS.FF8", "23:59:59.99999995"),
         (Kind::DT, "DD HH24:MI:SS.FF", "-99999999 23:59:59.9999996"),
         (Kind::DT, "DD HH24:MI:SS.FF", "999999999 23:59:59.999999"),
     ];
